@@ -94,7 +94,11 @@ func giantLists(ctx *core.Ctx) error {
 				prog[k].Ns, prog[k].Vs = []int{}, []string{}
 			}
 		}
-		cfg := Config{Version: []string{"1.7", "2.0", "1.5", "1.6"}[i%4], Seekable: i%2 == 0, Enc: "none", Tiny: true}
+		// seekable sinks only: on a non-seekable sink a container of this size
+		// gets an indirect /Length object at a moment the Flate filter's
+		// buffering decides, which PdfWriter.tla does not model (see the
+		// assumption on filtered streams above)
+		cfg := Config{Version: []string{"1.7", "2.0", "1.5", "1.6"}[i%4], Seekable: true, Enc: "none", Tiny: true}
 		jobs = append(jobs, Job{Cfg: cfg, Prog: prog, Seed: ctx.Seed + int64(i)})
 	}
 	runs, err := ExecuteAll(jobs)
